@@ -119,7 +119,7 @@ pub fn judge<U: OutElem>(
         let phase = if i + 1 < w { "warmup" } else { "steady" };
         match verdict {
             Verdict::Ok => {
-                if matches!(e, Expect::Null) {
+                if matches!(e, Expect::Null | Expect::NullTag(_)) {
                     ctx.count(&format!("null.{fname}"));
                 } else {
                     compared += 1;
@@ -142,7 +142,11 @@ pub fn judge<U: OutElem>(
             Verdict::NullMismatch => {
                 let kind = if o.null { "unexpected_null" } else { "missing_null" };
                 let intk = matches!(U::KIND, OutKind::I32 | OutKind::I64);
-                ctx.violation(&format!("{fname}/{kind}/{phase}{}", if intk { "/int" } else { "" }), || {
+                let tag = match e {
+                    Expect::NullTag(t) => *t,
+                    _ => phase,
+                };
+                ctx.violation(&format!("{fname}/{kind}/{tag}{}", if intk { "/int" } else { "" }), || {
                     format!(
                         "position {i}: observed {} expected {}; call: {}",
                         fmt_obs(o),
